@@ -33,6 +33,10 @@ def part_values(rng, cls, n, k=2):
         return [rng.choice(pool) for _ in range(n)]
     if cls == "big":
         return [rng.randint(1, 2 ** rng.choice([20, 30, 40])) for _ in range(n)]
+    if cls == "huge":
+        # near the float64-exactness limit of the property's scope: total stays below 2^52
+        n = min(n, 6)
+        return [rng.randint(1, 2 ** rng.choice([44, 47, 49])) for _ in range(n)]
     if cls == "powers":
         if rng.random() < 0.5:
             return [2 ** rng.randint(0, 12) for _ in range(n)]
